@@ -254,7 +254,11 @@ def _mk_class_listener(ev):
     def on(sess, obj):
         w = sess.info.get("vf_world")
         if w is not None and w.record_events:
-            w.evlog.append((w.name_of(obj), ev))
+            rh, w.rehold = w.rehold, False
+            try:
+                w.evlog.append((w.name_of(obj), ev))
+            finally:
+                w.rehold = rh
 
     return on
 
@@ -341,8 +345,12 @@ class World:
         self.evlog = []  # (name, event) in firing order
         self.nborn = 0
         self.closed = False
+        self.rehold = True
+        self.born_hold = cfg.get("born_hold", True)  # False: objects first seen by an event listener are named but not kept alive
+        self.initial = {}
         for name, clsname, kw in cfg.get("universe", ()):
             self.construct(name, clsname, kw)
+            self.initial[name] = tuple(sorted((k, v) for k, v in kw.items() if not (isinstance(v, str) and v.startswith("@"))))
 
     # ---- bookkeeping
     def name_of(self, obj, born=True):
@@ -350,12 +358,15 @@ class World:
         if n is None and born:
             self.nborn += 1
             n = "b%d" % self.nborn
-            self.register(n, obj)
+            self.register(n, obj, hold=self.rehold or self.born_hold)
+        elif n is not None and n not in self.objs and n != "src" and self.rehold:
+            self.objs[n] = obj  # the application received the object again (query / get result)
         return n
 
-    def register(self, name, obj):
+    def register(self, name, obj, hold=True):
         obj.__dict__["_vf_name"] = name
-        self.objs[name] = obj
+        if hold:
+            self.objs[name] = obj
         self.weak[name] = weakref.ref(obj)
         self.cls[name] = type(obj).__name__
 
@@ -395,11 +406,18 @@ class World:
                 v = fn(*op[1:])
                 out = Outcome(True, v)
             except Exception as e:  # noqa: BLE001 - classified by the driver
+                x = e
+                while x is not None:  # frames in the traceback would keep mapped objects alive
+                    x.__traceback__ = None
+                    x = x.__cause__ or x.__context__
                 out = Outcome(False, exc=e)
         out.warnings = tuple(str(w.message).split("\n")[0][:200] for w in wl)
         return out
 
     def op_add(self, name, reinit=None):
+        if reinit == "auto":
+            # invariant-based drivers: (re)initialise whenever the object is transient
+            reinit = self.initial.get(name) if inspect(self.objs[name]).transient else None
         if reinit:
             self.op_reinit(name, reinit)
         self.session.add(self.objs[name])
@@ -420,11 +438,51 @@ class World:
     def op_delete(self, name):
         self.session.delete(self.objs[name])
 
+    def op_delete_live(self, name):
+        """Session.delete() within its documented precondition ("the object is assumed
+        to be persistent or detached"): skipped for an object that is already deleted"""
+        st = inspect(self.objs[name])
+        if st.deleted or (st.detached and st.was_deleted):
+            return "skipped"
+        self.session.delete(self.objs[name])
+
+    def row_exists(self, name):
+        o = self.objs[name]
+        cn = self.cls[name]
+        pk = o.__dict__.get(PKATTR[cn])
+        if pk is None and inspect(o).key is not None:
+            pk = inspect(o).key[1][0]
+        t = {"Plain": "plain", "Parent": "parent", "Child": "child", "NNode": "nnode", "NItem": "nitem"}.get(cn, "person")
+        return any(r[0] == pk for r in dict(self.session_rows()).get(t, ()))
+
+    def op_add_known(self, name, reinit=None):
+        """add(); re-attaching a detached object only while its row exists (the
+        application does not claim identities that are not in the database)"""
+        if inspect(self.objs[name]).detached and not self.row_exists(name):
+            return "skipped"
+        return self.op_add(name, reinit)
+
+    def op_mttd_known(self, name, reinit=None):
+        """make_transient_to_detached() asserts 'this object has a row': only when true"""
+        o = self.objs[name]
+        if inspect(o).transient:
+            if reinit == "auto":
+                self.op_reinit(name, self.initial.get(name))
+                reinit = None
+            if not self.row_exists(name):
+                return "skipped"
+        return self.op_mttd(name, reinit)
+
     def op_expunge(self, name):
         self.session.expunge(self.objs[name])
 
     def op_set(self, name, attr, value):
         setattr(self.objs[name], attr, self.resolve(value))
+
+    def op_set_nf(self, name, attr, value):
+        """set inside session.no_autoflush (a primary-key attribute loads its old value first)"""
+        with self.session.no_autoflush:
+            setattr(self.objs[name], attr, self.resolve(value))
 
     def op_append(self, name, attr, other):
         getattr(self.objs[name], attr).append(self.objs[other])
@@ -465,10 +523,23 @@ class World:
     def op_refresh(self, name):
         self.session.refresh(self.objs[name])
 
+    def op_query_iter(self, clsname, opts=None):
+        """iterate the result instead of .all() (yield_per batches)"""
+        cls = CLASSES[clsname]
+        stmt = select(cls).order_by(getattr(cls, PKATTR[clsname]))
+        if opts:
+            stmt = stmt.execution_options(**dict(opts))
+        out = []
+        for o in self.session.scalars(stmt):
+            out.append(self.name_of(o))
+        return out
+
     def op_make_transient(self, name):
         make_transient(self.objs[name])
 
     def op_mttd(self, name, reinit=None):
+        if reinit == "auto":
+            reinit = self.initial.get(name) if inspect(self.objs[name]).transient else None
         if reinit:
             self.op_reinit(name, reinit)
         make_transient_to_detached(self.objs[name])
@@ -518,8 +589,11 @@ class World:
         """rows as the session's own transaction sees them (no autoflush, no ORM);
         outside a transaction: the committed rows"""
         s = self.session
-        if s.in_transaction() and s.get_transaction().is_active:
-            conn = s.connection()
+        if s.in_transaction() and s.is_active and s.get_transaction().is_active:
+            try:
+                conn = s.connection()
+            except sa_exc.SQLAlchemyError:
+                return self.committed_rows()
             out = {}
             for t in self.tables:
                 rows = conn.exec_driver_sql("select * from %s order by 1" % t).fetchall()
@@ -615,7 +689,7 @@ def deep_canon(world):
         tuple(levels),
         tuple(sorted(nm(x) for x in s._new)),
         tuple(sorted(nm(x) for x in s._deleted)),
-        tuple(sorted((k[0].__name__, tuple(k[1]), k[2], nm(st)) for k, st in imap._dict.items())),
+        tuple(sorted(((k[0].__name__, tuple(k[1]), k[2], nm(st)) for k, st in imap._dict.items()), key=repr)),
         tuple(sorted(nm(x) for x in imap._modified)),
         len(world.sps),
         s._close_state.name,
@@ -634,7 +708,7 @@ def deep_canon(world):
                 name,
                 name in world.objs,
                 state_of(o),
-                None if st.key is None else (tuple(st.key[1]), st.key[2]),
+                None if st.key is None else (tuple(st.key[1]), repr(st.key[2])),
                 st.session_id is not None,
                 bool(st._deleted),
                 bool(st.modified),
